@@ -11,6 +11,7 @@
 (*     (scenario for the QueuePipe machine), fin |-> <<accepted, completed>>,    *)
 (*     log |-> << <<op, item, t, active, limit, depth, x, c>>, ... >> ]          *)
 (*   op: psh (push accepted)  rej (push refused)  pop / pop0 (pop -> item/None)  *)
+(*       drp (accepted item discarded by the policy itself, e.g. CoDel)          *)
 (*       sta (service begins) rjq (discarded after dequeue, counted)             *)
 (*       req (handed back to the queue) fin (service ends) snk (reached the      *)
 (*       downstream entity) lim (limit changed) end (item field 1 = the run      *)
@@ -119,7 +120,7 @@ Apply(T, ww, r) ==
         IN Out([w0 EXCEPT !.st = [j \in DOMAIN ww.st |-> IF j = i THEN "transit"
                                                         ELSE IF j \in ex THEN "rejected" ELSE ww.st[j]],
                           !.oh = oh1, !.ov = ov1, !.deq = @ + 1, !.nrej = @ + Cardinality(ex),
-                          !.lp[i] = lm, !.obs = @ /\ Len(oh1) = d,
+                          !.lp[i] = lm, !.obs = @ /\ (T.nomodel = 1 \/ Len(oh1) = d),
                           !.ps = IF ww.mdl /\ mv = "" THEN pm.st ELSE @, !.mdl = @ /\ mv = ""], pv, Mdl(ww, mv))
       [] op = "pop0" ->
         LET ex == Expired(T, ww, t, 0)
@@ -133,6 +134,10 @@ Apply(T, ww, r) ==
         IN Out([w0 EXCEPT !.st = [j \in DOMAIN ww.st |-> IF j \in ex THEN "rejected" ELSE ww.st[j]],
                           !.oh = oh1, !.nrej = @ + Cardinality(ex), !.obs = @ /\ Len(oh1) = d,
                           !.ps = IF ww.mdl /\ mv = "" THEN pm.st ELSE @, !.mdl = @ /\ mv = ""], pv, Mdl(ww, mv))
+      [] op = "drp" ->
+        LET pv == First(IF ww.st[i] # "waiting" THEN "PROP:dropped_item_not_waiting" ELSE "",
+                        IF T.cnt = 1 /\ ~Counted(ww.nrej + 1, c) THEN "PROP:reject_not_counted" ELSE "")
+        IN Out([w0 EXCEPT !.st[i] = "rejected", !.nrej = @ + 1, !.oh = Remove(@, i)], pv, "")
       [] op = "sta" ->
         LET from == ww.st[i]
             lpi == IF from = "transit" THEN ww.lp[i] ELSE lm
